@@ -269,12 +269,12 @@ pub fn iter_sweep() -> Tally {
                         while pos <= text.len() {
                             match engine::find_at(re, text, pos) {
                                 Out::Match(g) => match g.first().copied().flatten() {
-                                    Some((s, e)) if e > s && s >= pos && e <= text.len() => {
+                                    Some((s, e)) if e > s && s >= pos && e <= text.len() && text.is_char_boundary(s) && text.is_char_boundary(e) => {
                                         expect.push((s, e));
                                         pos = e;
                                     }
                                     other => {
-                                        viol(&mut t, format!("find_from_pos({}) = {:?}", pos, other));
+                                        viol(&mut t, format!("find_from_pos({}) = {:?}: not a non-empty span on character boundaries at or after the start", pos, other));
                                         bad = true;
                                         break;
                                     }
